@@ -6,7 +6,8 @@ Translated (regenerated on every check run, compared with the committed cache):
                 handler macros (name, handler function); read_macro_params: the name given to a bare `...`
 Pinned (hand-modelled in Model/PP.lean; the translator checks that the source still has the shape the hand model
 was written after and raises ExtractError otherwise): the order of the arms of subst(), the hide-set expressions
-of expand_macro(), the flag propagation guards, join_tokens' spacing test, is_hash(), the copy loop of stringize()
+of expand_macro(), the flag propagation guards, join_tokens' spacing test, is_hash(), the whole arm "parameter followed
+by ##" of subst() with the placemarker loop of `fix:` 5a15c0f (Model/PP.lean skipEmptyOperands), the copy loop of stringize()
 (which tokens are escaped: TK_STR and TK_NUM, the latter being character constants while the preprocessor runs).
 """
 import re
@@ -54,11 +55,21 @@ PINNED = [
               r'if \(equal\(tok, ","\) && equal\(tok->next, "##"\)\) \{.*?'
               r'if \(equal\(tok, "##"\)\) \{ if \(cur == &head\) error_tok\(.*?if \(tok->next->kind == TK_EOF\) error_tok\(.*?'
               r'MacroArg \*arg = find_arg\(args, tok\); if \(arg && equal\(tok->next, "##"\)\) \{ Token \*rhs = tok->next->next; '
-              r'if \(rhs->kind == TK_EOF\) error_tok\(tok->next, "\'##\' cannot appear at end of macro expansion"\);.*?'
+              r'if \(rhs->kind == TK_EOF\) error_tok\(tok->next, "\'##\' cannot appear at end of macro expansion"\); '
+              # the arm "parameter with an EMPTY argument before ##" after `fix:` 5a15c0f, whole: the placemarker loop
+              # (Model/PP.lean skipEmptyOperands), then the copy of the operand the loop stops at, then tok = rhs->next
+              r'if \(arg->tok->kind == TK_EOF\) \{ MacroArg \*arg2 = find_arg\(args, rhs\); '
+              r'while \(arg2 && arg2->tok->kind == TK_EOF && equal\(rhs->next, "##"\) && rhs->next->next->kind != TK_EOF\) \{ '
+              r'rhs = rhs->next->next; arg2 = find_arg\(args, rhs\); \} '
+              r'if \(arg2\) \{ for \(Token \*t = arg2->tok; t->kind != TK_EOF; t = t->next\) cur = cur->next = copy_token\(t\); \} '
+              r'else \{ cur = cur->next = copy_token\(rhs\); \} tok = rhs->next; continue; \} '
+              # the non-empty argument: copied unexpanded, the `##` stays for the next iteration
+              r'Token \*prev = cur; for \(Token \*t = arg->tok; t->kind != TK_EOF; t = t->next\) cur = cur->next = copy_token\(t\); '
+              r'prev->next->at_bol = tok->at_bol; prev->next->has_space = tok->has_space; tok = tok->next; continue; \} '
               r'if \(equal\(tok, "__VA_OPT__"\) && equal\(tok->next, "\("\)\) \{.*?subst\(arg->tok, args, false\).*?'
               r'if \(arg\) \{ if \(!arg->expanded\) arg->expanded = preprocess2\(add_hideset\(arg->tok, NULL\)\);.*?'
               r'cur = cur->next = copy_token\(tok\); tok = tok->next; continue; \} cur->next = tok; return head\.next;',
-     'order and guards of the arms of subst'),
+     'order and guards of the arms of subst; the whole arm "parameter before ##" with the placemarker loop'),
     ('expand_macro', r'if \(hideset_contains\(tok->hideset, tok->loc, tok->len\)\) return false; '
                      r'Macro \*m = find_macro\(tok\); if \(!m\) return false; '
                      r'if \(m->handler\) \{ \*rest = m->handler\(tok\); \(\*rest\)->next = tok->next; return true; \} '
